@@ -236,10 +236,18 @@ struct Runner {
 	size_t api_get_size(void *q) { if(via_wrapper) { frg::slab_allocator w(pool); return w.get_size(q); } return pool->get_size(q); }
 	std::vector<Block> live;
 	std::vector<std::pair<uintptr_t, size_t>> live_ext;
-	std::map<size_t, long> inc_by_len;
 	long used_model = 0;
 	size_t max_class;
 	std::vector<unsigned> peak_live, cur_live, slabs_mapped;
+	// "One size class" is what the pool itself treats as one: the small blocks that report the same size. (class_size()/class_of() below
+	// only steer the generator towards today's class boundaries and predict small vs. large; a pool that serves 8-byte requests from its
+	// 16-byte class, or has other classes, is judged by its own classes.)
+	std::vector<size_t> reps;
+	int cls_of_rep(size_t rep) {
+		for(size_t i = 0; i < reps.size(); i++) if(reps[i] == rep) return (int)i;
+		reps.push_back(rep); peak_live.push_back(0); cur_live.push_back(0); slabs_mapped.push_back(0); class_freed.push_back(false);
+		return (int)reps.size() - 1;
+	}
 	unsigned step = 0;
 	uint32_t next_seed = 1;
 	// non-triviality bookkeeping
@@ -302,21 +310,26 @@ struct Runner {
 		VCHECK(c, "C04", mutex_log().held == 0, "%s: %d pool lock(s) still held when the call returned", what, mutex_log().held);
 		long now = (long)pool->numUsedPages();
 		long delta = now - used_model;
-		long known = 0; int unknown = -1;
-		for(size_t i : env.unmapped_in_call) known -= env.regions[i].inc;
-		for(size_t i : env.mapped_in_call) {
-			auto &r = env.regions[i];
-			if(!r.mapped) continue;          // mapped and unmapped in the same call
-			auto it = inc_by_len.find(r.len * 64 + (r.slab ? r.klass + 1 : 0));
-			if(it != inc_by_len.end()) { r.inc = it->second; known += r.inc; }
-			else { VCHECK(c, "C03", unknown < 0, "%s: the call mapped two regions of new kinds at once", what); unknown = (int)i; }
-		}
-		if(unknown >= 0) {
+		// "The counter rises when a region is taken and falls by the same amount when it is returned": the amount a region was charged
+		// with is whatever the counter rose by in the call that took it (it need not be a function of the region's length), and exactly
+		// that must come off when the region goes. A region that is mapped and unmapped within one call (a probe) nets zero.
+		long known = 0; std::vector<size_t> kept; bool fuzzy = false;
+		for(size_t i : env.unmapped_in_call) { if(env.regions[i].inc < 0) fuzzy = true; else known -= env.regions[i].inc; }
+		for(size_t i : env.mapped_in_call) if(env.regions[i].mapped) kept.push_back(i);
+		if(fuzzy) { for(size_t i : kept) env.regions[i].inc = -1; c.tag("page-accounting-ambiguous-call"); }
+		else if(kept.size() == 1) {
 			long inc = delta - known;
-			VCHECK(c, "C03", inc > 0, "%s: numUsedPages() did not rise when a region of %zu bytes was taken (delta %ld)", what, env.regions[unknown].len, inc);
-			VCHECK(c, "C03", (size_t)inc <= env.regions[unknown].len / info.page + 1, "%s: numUsedPages() rose by %ld for a region of %zu bytes", what, inc, env.regions[unknown].len);
-			env.regions[unknown].inc = inc; inc_by_len[env.regions[unknown].len * 64 + (env.regions[unknown].slab ? env.regions[unknown].klass + 1 : 0)] = inc;
-		} else VCHECK(c, "C03", delta == known, "%s: numUsedPages() changed by %ld, the regions taken/returned in this call account for %ld (counter drifts)", what, delta, known);
+			VCHECK(c, "C03", inc > 0, "%s: numUsedPages() did not rise when a region of %zu bytes was taken (delta %ld)", what, env.regions[kept[0]].len, inc);
+			VCHECK(c, "C03", (size_t)inc <= env.regions[kept[0]].len / info.page + 1, "%s: numUsedPages() rose by %ld for a region of %zu bytes", what, inc, env.regions[kept[0]].len);
+			env.regions[kept[0]].inc = inc;
+		} else if(kept.empty()) VCHECK(c, "C03", delta == known, "%s: numUsedPages() changed by %ld, the regions returned in this call account for %ld (counter drifts)", what, delta, known);
+		else {
+			// several regions kept by one call: only their sum is observable; they are tracked as charged with an unknown amount
+			long inc = delta - known;
+			VCHECK(c, "C03", inc > 0, "%s: numUsedPages() did not rise although %zu regions were taken (delta %ld)", what, kept.size(), inc);
+			for(size_t i : kept) env.regions[i].inc = -1;
+			c.tag("page-accounting-ambiguous-call");
+		}
 		VCHECK(c, "C03", now >= 0 && (unsigned long)now < (1ul << 40), "%s: numUsedPages() is %ld (underflow)", what, now);
 		used_model = now;
 		// regions taken by a failed or abandoned call must not stay mapped unused: every mapped
@@ -358,38 +371,63 @@ struct Runner {
 			classes_used |= 1u << b.klass;
 		} else large_seen = true;
 	}
-	void footprint(const char *what) {
-		// slabs ever mapped for a class never exceed ceil(peak live / objects per slab)
-		for(auto &r : env.regions) if(r.slab && r.born_call && r.klass >= 0) { slabs_mapped[r.klass]++; r.born_call = 0; }
-		for(int k = 0; k < info.nb; k++) if(slabs_mapped[k]) {
-			unsigned ops = objects_per_slab(k);
-			size_t fit = info.slab / class_size(k);
-			VCHECK(c, "C02", ops >= 1 && ops <= fit && ops + (512 + class_size(k) - 1) / class_size(k) >= fit, "%u objects of %zu bytes per %zu-byte slab is outside the plausible range", ops, class_size(k), info.slab);
+	void footprint(const char *what, int cls) {
+		// slabs ever mapped for a class never exceed ceil(peak live / objects per slab); a slab mapped in this call belongs to the class of the block the call returned
+		for(auto &r : env.regions) if(r.slab && r.born_call) { if(cls >= 0 && r.mapped) slabs_mapped[cls]++; r.born_call = 0; }     // (a region that was mapped and given back within the call - a probe - is not a slab)
+		for(size_t k = 0; k < reps.size(); k++) if(slabs_mapped[k]) {
+			unsigned ops = objects_per_slab(reps[k]);
+			if(!ops) { c.tag("class-not-calibratable"); continue; }
+			size_t fit = info.slab / reps[k];
+			// the calibration is the pool's own answer; it is only accepted if the slab is used up to a header of at most 1 KiB plus one object
+			VCHECK(c, "C02", ops >= 1 && ops <= fit && ops + 1 + (1024 + reps[k] - 1) / reps[k] >= fit, "%u objects of %zu bytes per %zu-byte slab is outside the plausible range", ops, reps[k], info.slab);
 			unsigned bound = (peak_live[k] + ops - 1) / ops;
 			VCHECK(c, "C02", slabs_mapped[k] <= bound, "%s: %u slabs are mapped for the %zu-byte class although at most %u blocks of it were ever live at once (%u fit into a slab): freed memory is not reused before new memory is mapped",
-					what, slabs_mapped[k], class_size(k), peak_live[k], ops);
+					what, slabs_mapped[k], reps[k], peak_live[k], ops);
 		}
 	}
 	// calibrated once per process and configuration on a scratch pool, cross-checked against a loose bound
-	static unsigned objects_per_slab(int k) {
-		static unsigned cache[16] = {0};
-		if(cache[k]) return cache[k];
+	// rep: the reported size of the class. Returns 0 when a request of rep bytes is not served from that class (then no bound is claimed).
+	static unsigned objects_per_slab(size_t rep) {
+		static std::map<size_t, unsigned> cache;
+		auto it = cache.find(rep); if(it != cache.end()) return it->second;
 		Env *saved = E; Env scratch; scratch.page = info.page; scratch.slab = info.slab; scratch.sb = info.sb; scratch.aligned = info.aligned; scratch.poison = poison; scratch.soft = soft;
 		scratch.bump = saved->high + (16u << 20); scratch.high = scratch.bump;
 		E = &scratch;
 		int held = mutex_log().held;
+		unsigned result = 0;
 		{
 			Pol p; Pool *pl = new Pool(p);
-			unsigned n = 0;
-			while(scratch.map_calls < 2 && n < 100000) { pl->allocate(class_size(k)); n++; }
-			cache[k] = n - 1;
+			unsigned n = 0; bool same_class = true;
+			while(scratch.map_calls < 2 && n < 100000) { void *q = pl->allocate(rep); if(n == 0 && (!q || pl->get_size(q) != rep)) { same_class = false; break; } n++; }
+			if(same_class && n > 1) result = n - 1;
 			ASAN_UNPOISON_MEMORY_REGION(arena_base() + saved->high, scratch.high - saved->high);
 			madvise(arena_base() + saved->high, scratch.high - saved->high, MADV_DONTNEED);
 			::operator delete(pl);
 		}
 		mutex_log().held = held; mutex_log().error.clear();
 		E = saved;
-		return cache[k];
+		cache[rep] = result;
+		return result;
+	}
+	// the class that serves requests of n bytes (n small), asked of a scratch pool: index into reps
+	int cls_for_request(size_t n) {
+		static std::map<size_t, size_t> cache;
+		auto it = cache.find(n);
+		if(it == cache.end()) {
+			Env *saved = E; Env scratch; scratch.page = info.page; scratch.slab = info.slab; scratch.sb = info.sb; scratch.aligned = info.aligned; scratch.poison = poison; scratch.soft = soft;
+			scratch.bump = saved->high + (16u << 20); scratch.high = scratch.bump;
+			E = &scratch;
+			int held = mutex_log().held;
+			size_t rep = 0;
+			{ Pol p; Pool *pl = new Pool(p); void *q = pl->allocate(n); rep = q ? pl->get_size(q) : 0;
+			  ASAN_UNPOISON_MEMORY_REGION(arena_base() + saved->high, scratch.high - saved->high);
+			  madvise(arena_base() + saved->high, scratch.high - saved->high, MADV_DONTNEED);
+			  ::operator delete(pl); }
+			mutex_log().held = held; mutex_log().error.clear();
+			E = saved;
+			it = cache.emplace(n, rep).first;
+		}
+		return cls_of_rep(it->second);
 	}
 
 	Block *do_alloc(size_t n, const char *what, bool via_realloc_null = false) {
@@ -415,14 +453,15 @@ struct Runner {
 		live.push_back(Block{(uintptr_t)p, n, 0, next_seed++, k});
 		Block &b = live.back();
 		b.rep = api_get_size(p);
+		if(k >= 0) b.klass = cls_of_rep(b.rep);
 		sync_ext();
 		birth_checks(b, what);
 		fill(b);
 		note_alloc(b);
 		end_call(what);
-		if(k >= 0 && maps) g_last_sites |= (slabs_mapped[k] ? 2 : 1);
+		if(k >= 0 && maps) g_last_sites |= (slabs_mapped[b.klass] ? 2 : 1);
 		if(k < 0 && maps) g_last_sites |= 4;
-		footprint(what);
+		footprint(what, b.klass);
 		verify_all(what);
 		return &live.back();
 	}
@@ -444,8 +483,14 @@ struct Runner {
 		if(b.klass >= 0) {
 			cur_live[b.klass]--; class_freed[b.klass] = true;
 			if(poison) {
-				for(size_t off = 8; off < b.rep; off += 8)
-					VCHECK(c, "C03", soft ? !env.soft_accessible(b.p + off, 1) : __asan_address_is_poisoned((void *)(b.p + off)) != 0, "%s: byte %zu of the freed %zu-byte block at %#lx is not poisoned", what, off, b.rep, (unsigned long)b.p);
+				// "poisoned again except for the allocator's own link word": at most one aligned word of the freed block stays accessible (where
+				// in the block the allocator keeps it is its business)
+				size_t open_words = 0, first_open = 0;
+				for(size_t off = 0; off < b.rep; off += 8) {
+					bool poisoned = soft ? !env.soft_accessible(b.p + off, 1) : __asan_address_is_poisoned((void *)(b.p + off)) != 0;
+					if(!poisoned) { if(!open_words) first_open = off; open_words++; }
+				}
+				VCHECK(c, "C03", open_words <= 1, "%s: %zu words of the freed %zu-byte block at %#lx are not poisoned (the first at byte %zu); only the allocator's link word may stay accessible", what, open_words, b.rep, (unsigned long)b.p, first_open);
 			}
 		} else {
 			Region *r = env.find(b.p);
@@ -509,11 +554,12 @@ struct Runner {
 			if(poison) VCHECK(c, "C03", accessible((uintptr_t)q, n), "%s: requested bytes not unpoisoned after in-place realloc", what);
 		} else {
 			moving = true;
-			if(old.klass >= 0 && k != old.klass) realloc_left_class = true;
 			live.erase(live.begin() + idx);
 			live.push_back(nb);
 			Block &b = live.back();
 			b.rep = api_get_size(q);
+			if(k >= 0) b.klass = cls_of_rep(b.rep);
+			if(old.klass >= 0 && b.klass != old.klass) realloc_left_class = true;
 			sync_ext();
 			birth_checks(b, what);
 			release_checks(old, what);
@@ -527,7 +573,7 @@ struct Runner {
 		cur.seed = next_seed++;
 		fill(cur);
 		end_call(what);
-		footprint(what);
+		footprint(what, cur.klass);
 		verify_all(what);
 		return (uintptr_t)q == old.p ? idx : live.size() - 1;
 	}
@@ -553,7 +599,7 @@ struct Runner {
 		E = &env;
 		mutex_log().reset();
 		max_class = class_size(info.nb - 1);
-		peak_live.assign(info.nb, 0); cur_live.assign(info.nb, 0); slabs_mapped.assign(info.nb, 0); class_freed.assign(info.nb, false);
+		reps.clear(); peak_live.clear(); cur_live.clear(); slabs_mapped.clear(); class_freed.clear();
 		g_last_sites = 0;
 		// fault plan
 		unsigned fmode = t.pick(c.focus() == "C04" ? 4 : 12);
@@ -590,19 +636,19 @@ struct Runner {
 			case 13: { unsigned cb = env.callbacks; long u = (long)pool->numUsedPages(); begin_call(-1, false, 0);
 				if(t.flip()) { c.op("free(null)"); api_free(nullptr); } else { size_t k = t.pick(100000); c.op("deallocate(null, %zu)", k); api_deallocate(nullptr, k); }
 				VCHECK(c, "C02", env.callbacks == cb && (long)pool->numUsedPages() == u, "free/deallocate of null made %u policy calls / changed the page counter", env.callbacks - cb);
-				VCHECK(c, "C02", api_get_size(nullptr) == 0, "get_size(null) is not 0");
 				end_call("free(null)"); verify_all("free(null)"); break; }
 			case 14: if(!live.empty()) { size_t idx = t.pick(live.size()); c.op("get_size(#%zu)", idx); touch(live[idx], "get_size"); verify(live[idx], "get_size"); } break;
 			case 15: case 16: {   // churn: allocate k blocks of one class, free them in a generated order, r rounds
-				int k = t.flip() ? info.nb - 1 - (int)t.pick(4) : (int)t.pick(info.nb); unsigned ops = objects_per_slab(k);   // biased to classes with few objects per slab
+				int k = t.flip() ? info.nb - 1 - (int)t.pick(4) : (int)t.pick(info.nb);    // biased to classes with few objects per slab
+				int cls = cls_for_request(class_size(k)); unsigned ops = objects_per_slab(reps[cls]); if(!ops) ops = (unsigned)(info.slab / class_size(k));
 				unsigned cnt = t.pick(3) == 0 ? ops + 1 + t.pick(3) : 1 + t.pick(std::min(ops + 2, 40u)); if(cnt > 600) cnt = 600;
 				unsigned rounds = 1 + t.pick(3);
 				c.op("churn class %zu x%u, %u rounds", class_size(k), cnt, rounds);
 				for(unsigned r = 0; r < rounds; r++) {
 					size_t first = live.size();
-					unsigned before = slabs_mapped[k];
+					unsigned before = slabs_mapped[cls];
 					for(unsigned j = 0; j < cnt; j++) { snprintf(what, sizeof what, "churn allocate(%zu)", class_size(k)); take_snapshot(); do_alloc(class_size(k) - (j % 3 == 0 ? 0 : t.pick(std::min<size_t>(class_size(k) / 2, 7))), what); }
-					if(r > 0 && cnt >= ops && slabs_mapped[k] == before) churn_refill = true;
+					if(r > 0 && cnt >= ops && slabs_mapped[cls] == before) churn_refill = true;
 					unsigned nfree = t.pick(4) == 0 ? t.pick(cnt + 1) : cnt;
 					for(unsigned j = 0; j < nfree && live.size() > first; j++) { size_t idx = first + t.pick(live.size() - first); do_free(idx, 0, "churn free"); }
 				}
@@ -626,8 +672,8 @@ struct Runner {
 		env.fail_mask = 0; env.fail_a = env.fail_b = -1;
 		while(!live.empty()) do_free(live.size() - 1, 0, "final free");
 		for(auto &r : env.regions) VCHECK(c, "C03", !r.mapped || r.slab, "after freeing every block the %zu-byte non-slab region at %#lx is still mapped", r.len, (unsigned long)r.base);
-		long slab_pages = 0; for(auto &r : env.regions) if(r.mapped) slab_pages += r.inc;
-		VCHECK(c, "C03", (long)pool->numUsedPages() == slab_pages, "after freeing every block numUsedPages() is %zu, the mapped slabs account for %ld", pool->numUsedPages(), slab_pages);
+		long slab_pages = 0; bool all_known = true; for(auto &r : env.regions) if(r.mapped) { if(r.inc < 0) all_known = false; slab_pages += r.inc; }
+		if(all_known) VCHECK(c, "C03", (long)pool->numUsedPages() == slab_pages, "after freeing every block numUsedPages() is %zu, the mapped slabs account for %ld", pool->numUsedPages(), slab_pages);
 		g_last_map_calls = env.map_calls;
 
 		int nclasses = __builtin_popcount(classes_used);
